@@ -2,9 +2,9 @@
 # runs every registered quick (or thorough) check once, sequentially, and prints rc + wall time per property
 TIER="${1:-quick}"
 cd "$(dirname "$0")/.."
-for p in C01 C02 C03 C04 C05 C06 C07 C08 C09 C10 C11 C12 C13 C14 C15 C16 C17 C18 C19 C20; do
+for p in ${PROPS:-C01 C02 C03 C04 C05 C06 C07 C08 C09 C10 C11 C12 C13 C14 C15 C16 C17 C18 C19 C20}; do
   s=$(date +%s)
-  ./check $p --tier $TIER > /tmp/vt/run_$p.log 2>&1; rc=$?
+  ./check $p --tier $TIER > /tmp/vt/run_${TIER}_$p.log 2>&1; rc=$?
   e=$(date +%s)
-  echo "$p rc=$rc wall=$((e-s))s violations=$(grep -c '^VIOLATION' /tmp/vt/run_$p.log) known=$(grep -c '^KNOWN-FINDING' /tmp/vt/run_$p.log) inconclusive=$(grep -c '^INCONCLUSIVE' /tmp/vt/run_$p.log)"
+  echo "$p rc=$rc wall=$((e-s))s violations=$(grep -c '^VIOLATION' /tmp/vt/run_${TIER}_$p.log) known=$(grep -c '^KNOWN-FINDING' /tmp/vt/run_${TIER}_$p.log) inconclusive=$(grep -c '^INCONCLUSIVE' /tmp/vt/run_${TIER}_$p.log)"
 done
